@@ -40,6 +40,10 @@ checks = {
    text="Every sequence up to depth 3 (thorough 4 reduced) over unlock(right/wrong/old)/lock/passphrase change(priv,pub)/address, cache-warming, import and account operations/restart/convert-to-watching-only; in the reached state every private-material accessor is applied to every managed address and path and must fail while locked or watching-only, the build-tagged hook must report every clear-text buffer wiped after each lock (explicit or by failed unlock), wrong/old passphrases must fail and leave it locked and the current one must unlock.",
    note="State = operation history; clear text in unreachable objects or caller-held copies cannot be inspected; error classes other than locked/watching-only are recorded, not required.",
    technique="bounded exhaustive enumeration of operation sequences on the implementation (stateless model checking) with an access-control table and a memory-inspection hook as oracle"),
+ "C08": dict(engine="seqx", level=MC, ref="4/C08",
+   text="Every operation sequence up to depth 3 in which each mutating operation is tried both committed and rolled-back-after-success; at the commit boundary after the last operation the full observation vector (issued addresses with metadata, next indices, last addresses, names, properties, used flags, sync state, block hashes) of the live manager is compared with a manager freshly opened on a copy of the database, and before a committed issuing call a restarted copy is asked which address it would issue. Failing sequences are delta-debugged to name the culprit operation.",
+   note="State = operation history; queries about addresses that were never issued by a committed operation are counted (Q3) but not required to agree. Four rollback leaks are listed as known findings.",
+   technique="bounded exhaustive enumeration of operation sequences with commit/rollback outcomes on the implementation, differential oracle live manager vs freshly opened manager"),
 }
 pending_reason = "check not built yet in this session (planned, see DESIGN.md section 4)"
 def sh(c): return subprocess.run(c, shell=True, capture_output=True, text=True).stdout.strip()
